@@ -57,10 +57,14 @@ def clone_answers(seed: int, params: dict[str, Any], session: int, pdus: list[by
     return out
 
 
-def skip_text(skip: dict[int, list[int] | None]) -> list[str]:
+def skip_text(skip: dict[int, list[int] | None], redundant: bool = False) -> list[str]:
+    """Range-expression tokens for a skip map. redundant: a whole-session entry is followed by an entry that names single ids of the
+    same session - by the documented semantics of the expression language the bare entry wins, the map is the same."""
     toks = []
     for k, v in skip.items():
         toks.append(f"{k:#x}" if v is None else f"{k:#x}:" + ",".join(hex(x) for x in v))
+        if v is None and redundant:
+            toks.append(f"{k:#x}:0x27,0x10")
     return toks
 
 
@@ -84,6 +88,7 @@ def services_case(draw) -> dict[str, Any]:
     drop_s = st.lists(st.sampled_from([0x00, 0x11, 0x14, 0x22, 0x27, 0x2E, 0x31, 0x85, 0xA0, 0xFE]), unique=True, min_size=1, max_size=3).map(sorted)
     return {"kind": "services", "seed": seed, "params": params, "sessions": sessions, "skip": {str(k): v for k, v in skip.items()},
             "scan_response_ids": draw(st.booleans()), "check_session": True if fallback else draw(st.booleans()), "tester_present": draw(st.booleans()),
+            "skip_redundant": draw(st.booleans()),
             # the ECU falls back to the default session after it has finished answering the probes of these service ids
             "drop": draw(drop_s) if fallback else []}
 
@@ -106,8 +111,19 @@ def identifiers_case(draw) -> dict[str, Any]:
         s = draw(st.sampled_from(sessions))
         skip[s] = draw(st.one_of(st.none(), st.lists(st.integers(start, end), unique=True, min_size=0, max_size=5).map(sorted)))
     payload = draw(st.sampled_from([None, None, "00", "0102", "ff"])) if svc != 0x22 else None
+    check_session = draw(st.sampled_from([None, None, 1, 1, 7]))
+    if draw(st.integers(0, 5)) == 0:
+        # routines on an ECU that leaves the session after a start-routine probe, scanned with a session check before every probe
+        svc, check_session, payload = 0x31, 1, None
+        params = {"p_session": 1.0, "optional_sessions": [2, 3], "p_identifier": 0.3, "p_service": 1.0, "p_correct_payload_format": 1.0, "p_sub_function": 0.3}
+        start = draw(st.sampled_from([0, 0x50, 0xF100, 0x1234]))
+        end = start + draw(st.sampled_from([3, 15, 40]))
+        sessions = draw(st.lists(st.sampled_from([2, 3]), min_size=1, max_size=2, unique=True))
+        skip = {}
+    # identifiers after whose (first) probe the ECU falls back to the default session; only with a session check before every probe
+    drop = draw(st.lists(st.integers(start, end), unique=True, min_size=1, max_size=3).map(sorted)) if (check_session == 1 and sessions and draw(st.booleans())) else []
     return {"kind": "identifiers", "seed": seed, "params": params, "service": svc, "start": start, "end": end, "sessions": sessions,
-            "skip": {str(k): v for k, v in skip.items()}, "payload": payload, "check_session": draw(st.sampled_from([None, None, 1, 7]))}
+            "skip": {str(k): v for k, v in skip.items()}, "payload": payload, "check_session": check_session, "drop": drop, "skip_redundant": draw(st.booleans())}
 
 
 def enterable(model: dict[int, dict[int, list[int] | None]], sessions: list[int]) -> list[tuple[int, bool]]:
@@ -149,7 +165,7 @@ def check_services(case: dict[str, Any]) -> list[tuple[str, str]]:
 
     server = vecu.make_server(case["seed"], case["params"], [])
     skip = {int(k): v for k, v in case["skip"].items()}
-    cfg = ServicesScannerConfig(target="tcp-lines://127.0.0.1:1", sessions=case["sessions"], skip=skip_text(skip) if skip else {},
+    cfg = ServicesScannerConfig(target="tcp-lines://127.0.0.1:1", sessions=case["sessions"], skip=skip_text(skip, bool(case.get("skip_redundant"))) if skip else {},
                                 scan_response_ids=case["scan_response_ids"], check_session=case["check_session"], dumpcap=False, timeout=0.5,
                                 properties=False, tester_present=case["tester_present"])
     drop = set(drop_effective(case, server))
@@ -231,11 +247,30 @@ def check_identifiers(case: dict[str, Any]) -> list[tuple[str, str]]:
     server = vecu.make_server(case["seed"], case["params"], [])
     skip = {int(k): v for k, v in case["skip"].items()}
     svc = case["service"]
-    cfg = ScanIdentifiersConfig(target="tcp-lines://127.0.0.1:1", sessions=case["sessions"], skip=skip_text(skip) if skip else {}, start=case["start"], end=case["end"],
+    cfg = ScanIdentifiersConfig(target="tcp-lines://127.0.0.1:1", sessions=case["sessions"], skip=skip_text(skip, bool(case.get("skip_redundant"))) if skip else {}, start=case["start"], end=case["end"],
                                 service=svc, payload=case["payload"], check_session=case["check_session"], dumpcap=False, timeout=0.5, properties=False,
                                 tester_present=False)
-    r = run_scanner(ScanIdentifiers, cfg, server, budget=60000)
-    ctx = f"identifiers seed={case['seed']} service={svc:#x} range={case['start']:#x}-{case['end']:#x} sessions={case['sessions']} skip={skip} payload={case['payload']} check_session={case['check_session']}"
+    drop = set(case.get("drop") or [])
+    if drop:
+        # the scanner can only repair the session if the default session tells which session is active and offers the way back
+        clone = vecu.make_server(case["seed"], case["params"], [])
+        clone.randomize()
+        m1 = vecu.model_dict(clone).get(1, {})
+        rep = clone_answers(case["seed"], case["params"], 1, [b"\x22\xf1\x86"])[0]
+        if case["check_session"] != 1 or rep is None or rep[0] != 0x62 or any(s_ != 1 and s_ not in (m1.get(0x10) or []) for s_ in case["sessions"] or []):
+            drop = set()
+
+    def after_reply(srv: Any, data: bytes, reply: bytes | None) -> None:
+        if data[0] != svc:
+            return
+        ident = data[1] if svc == 0x27 else int.from_bytes(data[2:4], "big") if svc == 0x31 else int.from_bytes(data[1:3], "big")
+        first_probe = svc != 0x31 or data[1] == 1
+        if ident in drop and first_probe and len(data) >= (4 if svc == 0x31 else 2 if svc == 0x27 else 3):
+            srv.state.session = 1
+
+    r = run_scanner(ScanIdentifiers, cfg, server, budget=60000, after_reply=after_reply if drop else None)
+    ctx = (f"identifiers seed={case['seed']} service={svc:#x} range={case['start']:#x}-{case['end']:#x} sessions={case['sessions']} skip={skip} payload={case['payload']} "
+           f"check_session={case['check_session']} ecu-falls-back-after={sorted(hex(x) for x in drop)}")
     if r["status"] != "ok":
         return [(f"C10/identifiers/run-{r['status']}", f"{ctx}: {r['val']!r}")]
     rc = r["box"].get("rc")
